@@ -36,6 +36,26 @@ def ofInt (n : Int) : Val := round53 { m := n, e := 0 }
 /-- The binary64 nearest to 0.0001 (`math.Float64bits(0.0001) = 0x3F1A36E2EB1C432D`). -/
 def c0001 : Val := { m := 7378697629483821, e := -66 }
 
+/-- Multiplication or division by a power of two: exact (no rounding) in the normal range. -/
+def scale2 (v : Val) (j : Int) : Val := { v with e := v.e + j }
+
+/-- The binary64 nearest to 299792.458, the length of one light millisecond in metres
+    (`utils.OneLightMillisecond`): `5150395210789814 / 2^34`. -/
+def cLightMs : Val := { m := 5150395210789814, e := -34 }
+
+/-- Floating-point division of a value by a positive integer constant `d` (exactly
+    representable): the exact quotient rounded once to 53 bits, nearest-even.  The numerator is
+    first scaled by `2^(64 + bitLen d)` so that the integer quotient has at least 64 bits. -/
+def divConst (a : Val) (d : Nat) : Val :=
+  if a.m = 0 then { m := 0, e := 0 } else
+  let s := 64 + bitLen d
+  let n := a.m * 2 ^ s
+  let k := bitLen (n.natAbs / d) - 53
+  { m := rhe n ((d : Int) * 2 ^ k), e := a.e - s + k }
+
+/-- `v * 2^s` as an integer, for `s` large enough that nothing is lost. -/
+def Val.scaled (v : Val) (s : Int) : Int := v.m * 2 ^ (v.e + s).toNat
+
 /-- `%.4f`: the nearest multiple of 0.0001 (ties to even) to the exact value, as an integer count. -/
 def fixed4 (v : Val) : Int :=
   if 0 ≤ v.e then v.m * 2 ^ v.e.toNat * 10000 else rhe (v.m * 10000) (2 ^ (-v.e).toNat)
